@@ -220,6 +220,221 @@ def bad_frames(r):
     return out
 
 
+# ------------------------------------------------------------------------------------------------------------------
+# the forwarding path of tNMEA2000 (FWD cases).  Everything here is written from the documentation of the modes and of the forward
+# setters in NMEA2000.h and from the N2k framing rules, not from the Coq model.
+F_SYS_SINGLE = [59392, 59904, 60928]                       # ISO acknowledgement, ISO request, ISO address claim
+F_SYS_FAST = [65240, 126208]                               # commanded address, group function
+F_KNOWN_SINGLE = [126992, 127250, 127488, 129025, 130306, 127505]
+F_KNOWN_FAST = [129029, 127489, 126996, 126464, 126998, 128275, 129540]
+F_UNKNOWN_SINGLE = [65300, 61184, 130000, 127999, 59648, 65280]
+F_UNKNOWN_FAST = [130900, 126720, 130816, 131071]          # proprietary fast-packet ranges: framed as fast packets, not "known"
+
+
+def f_pdu1(pgn):
+    return ((pgn >> 8) & 0xff) < 240
+
+
+def f_class(pgn, sf=(), fp=()):
+    """(known, system, fast packet) of a PGN; sf / fp = PGNs the application registered with Extend...Messages"""
+    system = pgn in F_SYS_SINGLE or pgn in F_SYS_FAST
+    fast = pgn in F_SYS_FAST or pgn in F_KNOWN_FAST or pgn in fp or pgn == 126720 or 130816 <= pgn <= 131071
+    known = system or pgn in F_KNOWN_SINGLE or pgn in F_KNOWN_FAST or pgn in sf or pgn in fp
+    return known, system, fast
+
+
+def f_table(mode, en, own_f, sys_f, ok_f, own_src, system, known, received):
+    """is the message forwarded?  mode 0 ListenOnly 1 NodeOnly 2 ListenAndNode 3 SendOnly 4 ListenAndSend"""
+    if not en or mode == 3:                                   # master switch; a send-only device never forwards
+        return False
+    if received:
+        if system and mode in (0, 1, 2):                      # system messages go by their own flag (where the node handles them)
+            flag = sys_f
+        else:
+            flag = known or not ok_f                          # "only known messages"
+        if mode == 1:                                         # a node-only device does not forward bus traffic: only what carries its own address
+            return flag and own_f and own_src
+        return flag
+    if mode == 0:                                             # a listener cannot send
+        return False
+    if mode == 1:
+        return own_f and own_src
+    return own_f                                              # "does not effect for own messages": only the own-messages flag counts
+
+
+def f_can_id(pri, pgn, src, dst):
+    if f_pdu1(pgn):
+        return (pri & 7) << 26 | (pgn & 0x3ff00) << 8 | dst << 8 | src
+    return (pri & 7) << 26 | pgn << 8 | src
+
+
+def f_frame(idv, data):
+    return '%x:%d:%s' % (idv, len(data), hx(data))
+
+
+def f_frames(r, pri, pgn, src, dst, data, fast, tp):
+    """the CAN frames that carry one message: single frame, fast packet, or ISO-TP broadcast announce + data transfer"""
+    n = len(data)
+    if tp:
+        npk = (n + 6) // 7
+        out = [f_frame(f_can_id(7, 60416, src, 255), [32, n & 255, n >> 8, npk, 0xff, pgn & 255, (pgn >> 8) & 255, (pgn >> 16) & 255])]
+        for k in range(npk):
+            chunk = list(data[7 * k:7 * k + 7])
+            out.append(f_frame(f_can_id(7, 60160, src, 255), [k + 1] + chunk + [0xff] * (7 - len(chunk))))
+        return out
+    idv = f_can_id(pri, pgn, src, dst)
+    if not fast:
+        return [f_frame(idv, data)]
+    sid = r.randrange(8) << 5
+    fr = [[sid, n] + list(data[:6])]
+    rest = list(data[6:])
+    k = 1
+    while rest:
+        fr.append([sid | k] + rest[:7]); rest = rest[7:]; k += 1
+    return [f_frame(idv, f + [0xff] * (8 - len(f))) for f in fr]
+
+
+class FCase:
+    """one FWD case: a node configuration and a history of receptions / own sends"""
+
+    def __init__(self, r, mode, en, own, sys_f, ok, addr=None, t0=None, sf=(), fp=()):
+        self.r = r
+        self.mode, self.en, self.own, self.sys, self.ok = mode, en, own, sys_f, ok
+        self.addr = r.choice([15, 25, ESC, STX, ETX, 0, 251, r.randrange(252)]) if addr is None else addr
+        self.clock = r.choice([1000, 5000, 123456, 0xFFFFFF00, 0xFFFFFFFF - 20, (1 << 32) + 1000, r.randrange(1000, 1 << 31)]) if t0 is None else t0
+        self.t0 = self.clock
+        self.sf, self.fp = tuple(sf), tuple(fp)
+        self.ops = []
+
+    def foreign(self):
+        return self.r.choice([x for x in [1, 2, 3, ESC, 33, 100, 200, 251, 253, 254, self.r.randrange(254)] if x != self.addr])
+
+    def tick(self):
+        self.clock += self.r.choice([0, 1, 3, 10, 50, 1000, 70000])
+        return self.clock
+
+    def rx(self, pgn, n, src, dst=None, pri=None, pmode=None, tp=False):
+        r = self.r
+        known, system, fast = f_class(pgn, self.sf, self.fp)
+        if not fast and not tp:
+            n = min(n, 8)
+        pri = 7 if tp else (r.choice([0, 2, 3, 6, 7, r.randrange(8)]) if pri is None else pri)
+        if tp or not f_pdu1(pgn):
+            dst = 255
+        elif dst is None:
+            dst = r.choice([255, self.addr, self.foreign()])
+        data = payload(r, n, r.randrange(6) if pmode is None else pmode)
+        at = self.tick()
+        own = src == self.addr and src <= 253
+        frames = f_frames(r, pri, pgn, src, dst, data, fast, tp)
+        self.ops.append('R %d%d%d %d %d %d %d %d %s %d %s' % (own, known, system, pri, pgn, dst, src, at % (1 << 32), hx(data), at, ','.join(frames)))
+
+    def tx(self, pgn, n, idev=0, src_in=None, dst_in=None, pri=None, tim=None, pmode=None):
+        r = self.r
+        known, system, fast = f_class(pgn, self.sf, self.fp)
+        pri = r.choice([0, 2, 3, 6, 7, r.randrange(8)]) if pri is None else pri
+        src_in = r.choice([self.addr, self.foreign() % 252, 0, 251]) if src_in is None else src_in
+        if dst_in is None:
+            dst_in = r.choice([255, self.foreign(), ESC, 0])
+        if not f_pdu1(pgn) and (pgn & 0xff) == 0:
+            dst_in = 255                                      # a broadcast PGN with a zero low byte: the caller says broadcast itself
+        src = self.addr if idev >= 0 else src_in              # SendMsg stamps the device's address on the message
+        dst = dst_in if f_pdu1(pgn) else 255                  # PDU2 messages have no destination: broadcast
+        tim = r.choice([0, 1, 0xFFFFFFFF, 0x10101010, 0x03100210, r.randrange(1 << 32)]) if tim is None else tim
+        data = payload(r, n, r.randrange(6) if pmode is None else pmode)
+        at = self.tick()
+        own = src == self.addr and src <= 253
+        self.ops.append('S %d%d%d %d %d %d %d %d %s %d %d %d %d' % (own, known, system, pri, pgn, dst, src, tim, hx(data), at, idev, src_in, dst_in))
+
+    def line(self):
+        extra = ''
+        if self.sf:
+            extra += ' sf=' + ','.join(str(x) for x in self.sf)
+        if self.fp:
+            extra += ' fp=' + ','.join(str(x) for x in self.fp)
+        return 'FWD mode=%d src=%d en=%d own=%d sys=%d ok=%d t0=%d%s | %s' % (self.mode, self.addr, self.en, self.own, self.sys, self.ok, self.t0, extra,
+                                                                              ' ; '.join(self.ops))
+
+
+def f_len(r, fast=True):
+    return r.choice([0, 1, 5, 6, 7, 8, 9, 13, 14, 20, 100, 222, 223, r.randint(1, 223), r.randint(1, 223)]) if fast else r.choice([0, 1, 3, 7, 8, 8, 8])
+
+
+def f_history(r, c):
+    """every message class once, in random order: system / known / unknown x single / fast / ISO-TP x foreign / own source, own sends"""
+    passive = c.mode in (0, 3, 4)                             # the node does not act on system messages (no replies of its own on the stream)
+    other = lambda: r.choice([x for x in (1, 7, 99, 250) if x != c.addr])
+    steps = [
+        lambda: c.rx(59904, 3, c.foreign(), dst=255 if passive and r.random() < .5 else other()),
+        lambda: c.rx(59904, 3, c.addr, dst=other()),
+        lambda: c.rx(59392, 8, r.choice([c.foreign(), c.addr]), dst=r.choice([255, c.addr, other()])),
+        lambda: c.rx(60928, 8, c.addr if passive and r.random() < .5 else c.foreign(), dst=255),
+        lambda: c.rx(126208, f_len(r), r.choice([c.foreign(), c.addr]), dst=r.choice([255, c.addr, other()]) if passive else other()),
+        lambda: c.rx(65240, r.choice([1, 8, 9, 10]), c.foreign(), dst=255),
+        lambda: c.rx(r.choice(F_KNOWN_SINGLE), f_len(r, False), c.foreign()),
+        lambda: c.rx(r.choice(F_KNOWN_SINGLE), 8, c.addr),
+        lambda: c.rx(r.choice(F_KNOWN_FAST), f_len(r), c.foreign()),
+        lambda: c.rx(r.choice(F_KNOWN_FAST), f_len(r), c.addr),
+        lambda: c.rx(r.choice(F_UNKNOWN_SINGLE), f_len(r, False), c.foreign()),
+        lambda: c.rx(r.choice(F_UNKNOWN_FAST), f_len(r), c.foreign()),
+        lambda: c.rx(r.choice(F_UNKNOWN_SINGLE + F_UNKNOWN_FAST), r.choice([1, 6, 8]), c.addr),
+        lambda: c.rx(r.choice(F_KNOWN_FAST + F_UNKNOWN_FAST + F_KNOWN_SINGLE), r.choice([9, 10, 50, 223, r.randint(9, 223)]), c.foreign(), tp=True),
+        lambda: c.rx(r.choice([65240, 126208] if passive else [65240]), r.choice([10, 14, 30]), r.choice([c.foreign(), c.addr]), tp=True),
+        lambda: c.tx(r.choice(F_KNOWN_SINGLE + F_KNOWN_FAST), f_len(r), idev=0),
+        lambda: c.tx(r.choice(F_UNKNOWN_SINGLE + F_UNKNOWN_FAST), f_len(r), idev=0),
+        lambda: c.tx(r.choice([59904, 59392, 126208]), r.choice([3, 8, 12]), idev=0, dst_in=other()),
+        lambda: c.tx(r.choice(F_KNOWN_FAST + F_UNKNOWN_SINGLE), f_len(r), idev=-1, src_in=r.choice([x for x in (5, 77, 251) if x != c.addr])),
+        lambda: c.tx(r.choice(F_KNOWN_SINGLE + F_UNKNOWN_FAST), f_len(r), idev=-1, src_in=c.addr),
+    ]
+    r.shuffle(steps)
+    for st in steps:
+        st()
+
+
+def gen_fwd(r, quick):
+    cases = []
+    # every mode x every combination of the four forward flags, each with a full history (twice with other addresses / clocks)
+    for rep in range(2 if quick else 12):
+        for mode in range(5):
+            for bits in range(16):
+                c = FCase(r, mode, bits & 1, bits >> 1 & 1, bits >> 2 & 1, bits >> 3 & 1)
+                f_history(r, c)
+                cases.append(c.line())
+    # every payload length 0..223 through the fast-packet reassembly, the ISO-TP reassembly and SendMsg, in the forwarding modes
+    for n0 in range(0, 224, 8):
+        for mode in ([2, 0] if quick else [0, 1, 2, 4]):
+            c = FCase(r, mode, 1, 1, 1, r.randrange(2))
+            for n in range(n0, n0 + 8):
+                pm = 4 if n % 8 == 0 else r.randrange(6)
+                src = c.addr if mode == 1 or r.random() < .2 else c.foreign()
+                c.rx(r.choice(F_KNOWN_FAST), n, src, pmode=pm)
+                if mode != 0:
+                    c.tx(r.choice(F_KNOWN_FAST + F_UNKNOWN_FAST), n, idev=0, pmode=pm)
+                if n >= 9 and (n % 3 == 0 or not quick):
+                    c.rx(r.choice(F_KNOWN_FAST), n, src, tp=True, pmode=r.randrange(6))
+            cases.append(c.line())
+    # PGNs the application registered: known only through Extend...Messages, with "only known" on and off
+    for mode in (0, 2, 4):
+        for ok in (0, 1):
+            c = FCase(r, mode, 1, 1, 1, ok, sf=(65300, 130000), fp=(127999, 130900))
+            for pgn in (65300, 130000, 127999, 130900, 65280, 131071, 61184, 126720):
+                c.rx(pgn, f_len(r), c.foreign())
+                if mode != 0:
+                    c.tx(pgn, f_len(r), idev=0)
+            cases.append(c.line())
+    # header extremes: priorities above 7 on own messages, null-address and escape-byte sources, the clock passing 2^32
+    for mode in (2, 4, 1):
+        c = FCase(r, mode, 1, 1, 1, 0, addr=r.choice([ESC, STX, ETX]), t0=0xFFFFFFFF - 5)
+        for pri in (8, ESC, 0x93, 255):
+            c.tx(r.choice(F_KNOWN_FAST), r.choice([1, 8, 40]), idev=0, pri=pri)
+            c.tx(r.choice(F_KNOWN_SINGLE), 8, idev=0, pri=pri)
+        for src in (254, ESC, STX, ETX, 0, 253):
+            c.rx(r.choice(F_KNOWN_FAST), r.choice([3, 16, 60]), src if src != c.addr else 1)
+            c.rx(r.choice(F_KNOWN_SINGLE), 8, src if src != c.addr else 1)
+        cases.append(c.line())
+    return cases
+
+
 def gen(seed, tier):
     r = random.Random(seed * 1000003 + 17)
     quick = tier == 'quick'
@@ -300,6 +515,8 @@ def gen(seed, tier):
     for n in (297, 298, 299, 300, 301):
         cases.append(dec(r, [ESC, STX, T_DATA, 0xFF] + [7] * (n - 2) + [ESC, ETX] + frame(body93(*small[0]))))
         cases.append(dec(r, [ESC, STX, T_DATA, (n - 3) & 255] + [0] * (n - 3) + [(-(T_DATA + ((n - 3) & 255))) & 255, ESC, ETX]))
+    # --- the forwarding path of tNMEA2000 (own random stream: the cases above do not change when this family does)
+    cases += gen_fwd(random.Random(seed * 1000003 + 1717), quick)
     return cases
 
 
@@ -313,6 +530,57 @@ def parse_msgs(res):
     return n, msgs
 
 
+def f_parse(case):
+    head, ops = case.split('|', 1)
+    kv = dict(x.split('=', 1) for x in head.split()[1:] if '=' in x)
+    return kv, [o.split() for o in ops.split(';') if o.strip()]
+
+
+def oracle_fwd(case, res):
+    """forwarded (by the documented decision table) -> the reader on the forward stream reports exactly that message, once;
+    not forwarded -> nothing is written"""
+    kv, ops = f_parse(case)
+    if not res.startswith('fwd'):
+        return 'forward:unexpected result %s' % res[:60]
+    rops = [x.strip() for x in res[3:].split(' ; ')] if res[3:].strip() else []
+    if len(rops) != len(ops):
+        return 'forward:%d results for %d operations' % (len(rops), len(ops))
+    mode, addr = int(kv['mode']), int(kv['src'])
+    en, own_f, sys_f, ok_f = [kv[k] == '1' for k in ('en', 'own', 'sys', 'ok')]
+    sf = tuple(int(x) for x in kv.get('sf', '').split(',') if x)
+    fp = tuple(int(x) for x in kv.get('fp', '').split(',') if x)
+    for o, ro in zip(ops, rops):
+        pri, pgn, dst, src, tim = [int(x) for x in o[2:7]]
+        data = bytes.fromhex(o[7]) if o[7] != '-' else b''
+        known, system, _ = f_class(pgn, sf, fp)
+        own_src = src == addr and src <= 253
+        expect = f_table(mode, en, own_f, sys_f, ok_f, own_src, system, known, o[0] == 'R')
+        parts = [x.strip() for x in ro.split('|')]
+        h = parts[0].split()
+        if len(h) != 2:
+            return 'forward:malformed result %s' % ro[:60]
+        written, n, msgs = h[0], int(h[1]), parts[1:]
+        what = '%s PGN %d from %d (%s%s%s) in mode %d en=%d own=%d sys=%d onlyknown=%d' % (
+            'received' if o[0] == 'R' else 'own', pgn, src, 'own address ' if own_src else '', 'system ' if system else '', 'known' if known else 'unknown',
+            mode, en, own_f, sys_f, ok_f)
+        if not expect:
+            if written != '-' or n != 0:
+                return 'forward-unexpected:a message that is not to be forwarded reached the forward stream: %s' % what
+            continue
+        if not (0 < pgn < (1 << 24) and 1 <= len(data) <= 223 and tim < (1 << 32)):
+            continue                                        # not a valid message (no payload): nothing is demanded
+        want = '%d %d %d %d %d %s' % (pri, pgn, dst, src, tim, data.hex())
+        if written == '-':
+            return 'forward-missing:a message that is to be forwarded was not written to the forward stream: %s' % what
+        out = bytes.fromhex(written)
+        ref, _ = reference(out, 65, 0)
+        if n != 1 or msgs != [want]:
+            return 'forward-roundtrip:the reader reported %d message(s) for one forwarded message%s: %s' % (n, '' if n != 1 else ', and it differs from the one forwarded', what)
+        if ref != [want] or out[:2] != bytes([ESC, STX]) or out[-2:] != bytes([ESC, ETX]):
+            return 'forward-roundtrip:the bytes written are not one Actisense frame holding the message: %s' % what
+    return None
+
+
 def oracle(case, res):
     """the property, applied to what the implementation did (independent of the Coq model)"""
     t = case.split()
@@ -320,6 +588,8 @@ def oracle(case, res):
         return 'memory:%s %s' % (t[0], res)
     if 'canary' in res:
         return 'memory:%s the received tN2kMsg was written outside Data[0..DataLen) / DataLen out of range (%s)' % (t[0], res[-40:])
+    if t[0] == 'FWD':
+        return oracle_fwd(case, res)
     if t[0] in ('ENC', 'RT'):
         pri, pgn, dst, src, tim = [int(x) for x in t[1:6]]
         data = bytes.fromhex(t[6]) if t[6] != '-' else b''
@@ -388,10 +658,17 @@ def check(run, replay=None):
                        'checksum disagree (both directions, bodies of 0..14 bytes, 255-byte length) alone and after a good frame + sequences of good/bad/overlong '
                        'frames and request frames with 8 kinds of garbage between them + mutated frames + random streams biased to ESC/STX/ETX/0x93/0x94, '
                        'with ReadOut true and false and the stream delivered whole, in two parts, or in chunks of 1..13 bytes; '
+                       '+ the forwarding path: a tNMEA2000 with a scripted CAN driver whose forward stream feeds one reader, all 5 modes x all 16 combinations of '
+                       'EnableForward/SetForwardOwnMessages/SetForwardSystemMessages/SetForwardOnlyKnownMessages x received system/known/unknown/application-registered '
+                       'PGNs as single frames, fast packets and ISO-TP broadcasts from foreign addresses and from the node\'s own address + own messages through SendMsg '
+                       '(device address forced / caller\'s address), payload lengths 0..223 with all escape densities, priorities above 7, clock passing 2^32; '
                        'non-trivial = distinct case text that is an encode/round trip or a stream containing a start sequence')
     run.assumptions += ['x86-64 build: plain char signed, 32-bit int (byteSum cannot overflow: at most 300 bytes per frame)',
                         'MsgBuf is uninitialised after construction; the harness fills it with a byte given in the case, the model carries the array contents as state '
                         'and the theorems hold for every initial contents',
-                        'the forwarding path of tNMEA2000 is not exercised here (it calls the same SendInActisenseFormat)',
+                        'forwarding path: the decision model takes IsMySource / KnownMessage / SystemMessage as inputs; the case generator computes them from the '
+                        'PGN lists and addresses, the C++ derives them from the CAN frames, and the comparison of the two sides covers that step; ForwardType is '
+                        'fwdt_Actisense; the reassembly of received messages itself (C02/C03) and the transmission of own messages (C01) are not part of this check; '
+                        'own messages sent with ISO-TP (the transport frames are forwarded as messages of their own) and replies the node sends itself are not generated',
                         'a message is valid when PGN != 0 and 1 <= DataLen <= 223 (tN2kMsg::IsValid); PGN 0 is written as nothing at all']
     vlib.correspond(run, 'actisense', 'h_acti', 'w64', 'C17', cases, oracle, nontrivial)
